@@ -62,15 +62,19 @@ type SpecParam struct{ Name, Type string }
 
 type UFDecl struct{ Name, Decl, Ret string }
 
+// GhostDecl: specification-only state threaded through the heap like a map heap.
+type GhostDecl struct{ Name, Key, Val string }
+
 type ContractSet struct {
 	Funcs map[string]*FuncContract // by Key
 	Specs map[string]*SpecFunc     // by name (package-local names must be unique overall)
 	UFs   map[string]*UFDecl
+	Ghosts map[string]*GhostDecl
 	Files []string
 }
 
 func NewContractSet() *ContractSet {
-	return &ContractSet{Funcs: map[string]*FuncContract{}, Specs: map[string]*SpecFunc{}, UFs: map[string]*UFDecl{}}
+	return &ContractSet{Funcs: map[string]*FuncContract{}, Specs: map[string]*SpecFunc{}, UFs: map[string]*UFDecl{}, Ghosts: map[string]*GhostDecl{}}
 }
 
 var clauseKW = map[string]bool{"requires": true, "ensures": true, "modifies": true, "loop": true, "lock-balanced": true,
@@ -106,7 +110,7 @@ func (cs *ContractSet) ParseContractFile(path, pkgPath string) error {
 		if b := strings.Index(first, "["); b > 0 {
 			first = first[:b]
 		}
-		isKW := clauseKW[first] || first == "func" || first == "assume" || first == "iface" || first == "spec" || first == "uf"
+		isKW := clauseKW[first] || first == "func" || first == "assume" || first == "iface" || first == "spec" || first == "uf" || first == "ghost"
 		if !isKW && len(lines) > 0 {
 			lines[len(lines)-1].s += " " + t
 			continue
@@ -150,6 +154,23 @@ func (cs *ContractSet) ParseContractFile(path, pkgPath string) error {
 				return fmt.Errorf("%s:%d: duplicate contract for %s (first at %s:%d)", path, l.n, cur.Key(), old.File, old.Line)
 			}
 			cs.Funcs[cur.Key()] = cur
+		case "ghost":
+			// ghost $name (KeySort) ValSort   |   ghost $name ValSort
+			if len(f) < 3 {
+				return fmt.Errorf("%s:%d: bad ghost declaration", path, l.n)
+			}
+			g := &GhostDecl{Name: f[1]}
+			if strings.HasPrefix(f[2], "(") {
+				g.Key = strings.Trim(f[2], "()")
+				if len(f) < 4 {
+					return fmt.Errorf("%s:%d: bad ghost declaration", path, l.n)
+				}
+				g.Val = f[3]
+			} else {
+				g.Val = f[2]
+			}
+			cs.Ghosts[g.Name] = g
+			cur = nil
 		case "uf":
 			// uf name (Int Str) Bool
 			op, cl := strings.Index(rest, "("), strings.Index(rest, ")")
@@ -253,13 +274,16 @@ func (cs *ContractSet) ParseContractFile(path, pkgPath string) error {
 			case "at-call":
 				// at-call <callee short name> assert <expr>: checked in the caller's state right
 				// before every call of that callee (old() is the caller's entry state)
-				if len(f) < 4 || f[2] != "assert" {
+				if len(f) < 4 || !strings.HasPrefix(f[2], "assert") {
 					return fmt.Errorf("%s:%d: at-call <callee> assert <expr>", path, l.n)
 				}
-				srest := strings.TrimSpace(l.s[strings.Index(l.s, " assert ")+8:])
+				srest := strings.TrimSpace(l.s[strings.Index(l.s, " "+f[2]+" ")+len(f[2])+2:])
 				c, err := mk(srest)
 				if err != nil {
 					return err
+				}
+				if b := strings.Index(f[2], "["); b > 0 && strings.HasSuffix(f[2], "]") {
+					c.Label = f[2][b+1 : len(f[2])-1]
 				}
 				if cur.AtCall == nil {
 					cur.AtCall = map[string][]Clause{}
